@@ -303,6 +303,10 @@ class SegmentResult:
         self.stopped = stopped
 
 
+class SegmentNotFound(LookupError):
+    """The statement that bounds a segment is not in the (changed) source text any more."""
+
+
 def segment_callable(key, contract, root='/repo'):
     """The statements of a segment contract (from the function's first statement, or `start_at`, up to `stop_before`),
     cut mechanically out of the real source and compiled into a function of the parameters (plus the `live`
@@ -320,10 +324,14 @@ def segment_callable(key, contract, root='/repo'):
         node = next(ch for ch in ast.iter_child_nodes(node) if isinstance(ch, (ast.FunctionDef, ast.ClassDef)) and ch.name == part)
     body = list(node.body)
     if contract.get('start_at'):
-        idx = next(i for i, s in enumerate(body) if ast.unparse(s).startswith(contract['start_at']))
+        idx = next((i for i, s in enumerate(body) if ast.unparse(s).startswith(contract['start_at'])), None)
+        if idx is None:
+            raise SegmentNotFound(f'start_at statement not found in {key}: {contract["start_at"]!r}')
         body = body[idx:]
     if contract.get('stop_before'):
-        idx = next(i for i, s in enumerate(body) if ast.unparse(s).startswith(contract['stop_before']))
+        idx = next((i for i, s in enumerate(body) if ast.unparse(s).startswith(contract['stop_before'])), None)
+        if idx is None:
+            raise SegmentNotFound(f'stop_before statement not found in {key}: {contract["stop_before"]!r}')
         body = body[:idx]
     params = [a.arg for a in node.args.args] + list(contract.get('live', {}))
     src = 'def __segment__(' + ', '.join(params) + '):\n'
